@@ -421,6 +421,11 @@ PROPS["C01"]["level_note"] += "; the soft-max/cross-entropy clause uses the symb
 
 PROPS["C03"]["record"] = [{"group": "optslots", "trace_module": "Trace_Opt"}]
 PROPS["C03"]["technique"] += " + TLC validation of the slot addressing of real training runs (Trace_Opt / OptSlots.tla)"
+# C03, histories that span several learn calls on one network (every optimizer family, incl. feedback blocks)
+PROPS["C03"]["mc"].append({"module": "MC_Training",
+                           "consts": {"quick": {"MaxN": 2, "MaxB": 2, "MaxE": 2, "MaxWorkers": 1, "MaxTol": 1, "NVals": 1, "MaxLayers": 1, "Mode": "schedule"},
+                                      "thorough": {"MaxN": 3, "MaxB": 3, "MaxE": 3, "MaxWorkers": 1, "MaxTol": 1, "NVals": 1, "MaxLayers": 1, "Mode": "schedule"}},
+                           "workers": 4})
 # C04, "exactly one optimizer step per group": every parameter tensor (per layer, per filter, weights / bias) is stepped
 # once per group on its own state slot -- the same recorded runs, validated against OptSlots.tla
 PROPS["C04"]["record"].append({"group": "optslots", "trace_module": "Trace_Opt"})
